@@ -63,5 +63,9 @@ package nsqd
 //@   ensures[granted] result == nil ==> len(curOpts(client.nsqd).AuthHTTPAddresses) == 0 || (client.AuthState != nil && auth.stateAllows(client.AuthState, topicName, channelName))
 //@   ensures[auth-first] len(curOpts(client.nsqd).AuthHTTPAddresses) != 0 && (old(client.AuthState) == nil || len(old(client.AuthState.Authorizations)) == 0) ==> isFatalCode(result, "E_AUTH_FIRST")
 //@   ensures[codes] result != nil ==> isFatalCode(result, "E_AUTH_FIRST") || isFatalCode(result, "E_AUTH_FAILED") || isFatalCode(result, "E_UNAUTHORIZED")
-//@   modifies client.AuthState, authQueries, lastNow, lastAuthQueryOK
+//@   modifies client.AuthState, authQueries, lastNow, lastAuthQueryOK, authCalls, authOK
+//   that the gate ran and its verdict, for the publish handlers' contracts (ghosts in zz_contracts_publish_verif.go)
+//@   onreturn authCalls := authCalls + 1
+//@   onreturn authOK := result == nil
+//@ ghostgroup authCalls, authOK, authQueries, lastAuthQueryOK
 //@ pred isFatalCode(err error, code string) := dyntype(err) == typetag("*protocol.FatalClientErr") && unbox(err, "*protocol.FatalClientErr").Code == code
